@@ -372,4 +372,12 @@ def r5(ctx):
               ctx.construct(pm, text="from_spec"), "ModelSpec.from_spec normalisation changed shape")
 
 
-RULES = [("C05.R1", r1), ("C05.R2", r2), ("C05.R3", r3), ("C05.R4", r4), ("C05.R5", r5)]
+
+def r6(ctx):
+    """sparse and dense outputs hold the same numbers: contrast codings execute the same value-affecting statements for both (= C11.R6)."""
+    from .shared import relabel
+    from . import c11
+    relabel(ctx, "C05.R6", c11.r6)
+
+
+RULES = [("C05.R1", r1), ("C05.R2", r2), ("C05.R3", r3), ("C05.R4", r4), ("C05.R5", r5), ("C05.R6", r6)]
